@@ -241,7 +241,7 @@ def run(ctx):
             known.append((cid, detail))
     acc = outcome_hist["ok"] / max(1, len(items))
     if known:
-        cid, detail = min(known, key=lambda k: len(res[k[0]]["res"].get("mir") or ""))
+        cid, detail = min(known, key=lambda k: (" spec 'none'" not in k[1] and "'none'" not in k[1], len(res[k[0]]["res"].get("mir") or "")))
         vlib.known_finding(ctx, d10, f"a ref's own allow_address_overlap is dropped by the lowering: {len(known)} definitions rejected/"
                                      f"reported differently although the spec (target flag OR own flag) allows the overlap; e.g. {detail}")
     if bad:
